@@ -70,6 +70,14 @@ CHECKS["C20"] = dict(
          "The input is finite and complete (all 0x110000 code points, all table entries, all 256 direction values), so one pass is exhaustive.",
     note="Trusts the harness's flattening of unicode.RangeTable and run-length compression, x/text norm for the exclusion facts, TLC.")
 
+CHECKS["C13"] = dict(
+    engine="reuse",
+    technique="TLA+ property spec of result validity epochs (Reuse.tla: SameAsFresh, Stable, documented invalidation points), operation histories enumerated exhaustively by TLC (ReuseGen.tla) per object kind, replayed on one re-used real object and on fresh ones, validated by the ReuseV monitor",
+    category="model_checking", design_ref="DESIGN.md §5 C13",
+    text="For five kinds of reusable object (HarfbuzzShaper with faces sharing a font, Face, LineWrapper, shaping.Segmenter, segmenter.Segmenter) TLC enumerates every operation history up to length D; "
+         "the harness executes it on one object, each step also on freshly built objects, and re-digests every earlier result after every step; the monitor tracks the validity epoch of each result and evaluates SameAsFresh and Stable at every event.",
+    note="Trusts sha1 digests of result fields as the observation, the harness's construction of the 'fresh' configuration, TLC. Small alphabets (3 faces, 2-4 texts, 3 paragraphs); history length bounded.")
+
 NOT_YET = {}
 NA = {
  "C05": "defined as agreement with the reference C HarfBuzz; no reference shaper (uharfbuzz/hb-shape) exists in this sealed sandbox and re-specifying HarfBuzz in TLA+ would make the spec the reference (DESIGN §6)",
